@@ -30,7 +30,9 @@ class Contract:
                  result="none", effects=None, exc_ensures=(), entry=None, assumed=False, note="", ghost=None,
                  canaries=(), covers=(), max_unroll=8, use=None, label="", ghost_params=None, split_cases=(),
                  replay=None, search=None, timeout=None, order=None, gen=None,
-                 ascii_strings=(), ascii_hints=(), steps=(), model=None, opaque=None, when=None):
+                 ascii_strings=(), ascii_hints=(), steps=(), model=None, opaque=None, when=None, yield_grid=None, use_labels=None):
+        self.yield_grid = yield_grid
+        self.use_labels = dict(use_labels or {})
         self.when = when
         self.opaque = dict(opaque or {})
         self.model = model
@@ -203,7 +205,8 @@ class VerifCtx:
         return self.specfns[name]
 
     def contract_for_call(self, qual, caller, args=None):
-        c = self.contracts.get(qual)
+        lab = getattr(caller, "use_labels", {}).get(qual)
+        c = self.contracts.get(f"{qual}[{lab}]") if lab else self.contracts.get(qual)
         if c is None and args is not None:
             for k, cand in self.contracts.items():
                 if cand.qual == qual and cand.label and cand.when is not None and cand.when(args):
@@ -259,6 +262,7 @@ class VerifCtx:
         voc["isnone"] = _SpecCallable(lambda ex_, v: ex_.is_same(v, None) if True else None)
         voc["val"] = _SpecCallable(lambda ex_, v: v.val if isinstance(v, SOpt) else v)
         voc["inre"] = _SpecCallable(lambda ex_, s, pat: wrap(z3.InRe(lift(s), RX.compiled(pat).whole)))
+        voc["inre_prefix"] = _SpecCallable(lambda ex_, s, pat: wrap(z3.InRe(lift(s), z3.Concat(RX.compiled(pat).whole, RX.FULL))))
         voc["str_to_int"] = _SpecCallable(lambda ex_, s: wrap(z3.StrToInt(lift(s))))
         voc["substr"] = _SpecCallable(lambda ex_, s, a, n: wrap(z3.SubString(lift(s), as_int_term(a), as_int_term(n))))
         voc["div"] = _SpecCallable(lambda ex_, a, b: wrap(as_int_term(a) / as_int_term(b)))
@@ -368,9 +372,14 @@ class VerifCtx:
             if m == "struct" and orig == "error":
                 return ClassRef("struct.error")
             if m == "re" and orig is None:
-                return _Module("re", {"match": _SpecCallable(lambda ex_, p, s, *a: RX.do_match(ex_, p, s, 0, "match")),
-                                      "fullmatch": _SpecCallable(lambda ex_, p, s, *a: RX.do_match(ex_, p, s, 0, "fullmatch")),
-                                      "compile": _SpecCallable(lambda ex_, p, *a: RePattern(p))})
+                import re as _re
+                fl = lambda a: int(a[0]) if a else 0
+                return _Module("re", {"match": _SpecCallable(lambda ex_, p, s, *a: RX.do_match(ex_, p, s, 0, "match", fl(a))),
+                                      "fullmatch": _SpecCallable(lambda ex_, p, s, *a: RX.do_match(ex_, p, s, 0, "fullmatch", fl(a))),
+                                      "compile": _SpecCallable(lambda ex_, p, *a: RePattern(p, fl(a))),
+                                      "IGNORECASE": int(_re.IGNORECASE), "I": int(_re.I), "DOTALL": int(_re.DOTALL),
+                                      "S": int(_re.S), "ASCII": int(_re.ASCII), "A": int(_re.A),
+                                      "MULTILINE": int(_re.MULTILINE), "M": int(_re.M), "VERBOSE": int(_re.VERBOSE)})
             if m == "contextlib" and orig == "suppress":
                 return Builtin("suppress")
             if m == "math" and orig is None:
@@ -386,8 +395,15 @@ class VerifCtx:
 
     def module_value(self, mod, name, val, ex):
         if isinstance(val, ast.Call) and ast.unparse(val.func) == "re.compile":
+            import re as _re
             pat = extract.const_eval(val.args[0])
-            return RePattern(pat)
+            flags = 0
+            for a in list(val.args[1:]) + [k.value for k in val.keywords]:
+                txt = ast.unparse(a)
+                if not all(tok.strip().startswith("re.") for tok in txt.split("|")):
+                    raise Unsupported(f"re.compile flags expression {txt}")
+                flags |= int(eval(txt, {"re": _re, "__builtins__": {}}))
+            return RePattern(pat, flags)
         try:
             v = extract.const_eval(val)
         except extract.ExtractError:
